@@ -15,7 +15,9 @@ package io
 
 import (
 	"reflect"
+	"runtime"
 	"sync"
+	"sync/atomic"
 )
 
 var decoderMap sync.Map
@@ -44,10 +46,64 @@ func getRegisteredValueDecoder(t reflect.Type) (valdec ValueDecoder) {
 func getValueDecoder(t reflect.Type) (valdec ValueDecoder) {
 	valdec = getRegisteredValueDecoder(t)
 	if valdec == nil {
+		if canRecurWithoutStruct(t) {
+			// the factory builds the decoders of the element types first: a type that contains
+			// itself (type Tree []Tree, type Dict map[string]*Dict) would be built for ever.
+			// While it is built, whoever asks for it gets a stand-in that looks the finished
+			// decoder up when it is first used.
+			standIn := &decoderBeingBuilt{t: t}
+			if actual, loaded := decodersBeingBuilt.LoadOrStore(t, standIn); loaded {
+				return actual.(ValueDecoder)
+			}
+			defer decodersBeingBuilt.Delete(t)
+		}
 		valdec = valueDecoderFactories[t.Kind()](t)
 		registerValueDecoder(t, valdec)
 	}
 	return
+}
+
+// canRecurWithoutStruct: a cycle in a type passes through a named type; named structs have
+// their own stand-in (newNamedStructDecoder), the other named types that contain types are these.
+func canRecurWithoutStruct(t reflect.Type) bool {
+	if t.Name() == "" {
+		return false
+	}
+	switch t.Kind() {
+	case reflect.Slice, reflect.Map, reflect.Array, reflect.Ptr:
+		return true
+	}
+	return false
+}
+
+var decodersBeingBuilt sync.Map
+
+// decoderBeingBuilt stands in for the decoder of a type while that decoder is being built.
+type decoderBeingBuilt struct {
+	t      reflect.Type
+	valdec atomic.Value
+}
+
+type foundDecoder struct{ valdec ValueDecoder }
+
+func (d *decoderBeingBuilt) Decode(dec *Decoder, p interface{}, tag byte) {
+	var valdec ValueDecoder
+	if found, ok := d.valdec.Load().(foundDecoder); ok {
+		valdec = found.valdec
+	}
+	for valdec == nil {
+		if valdec = getRegisteredValueDecoder(d.t); valdec != nil {
+			d.valdec.Store(foundDecoder{valdec})
+			break
+		}
+		if _, busy := decodersBeingBuilt.Load(d.t); !busy {
+			// the build has failed (an element type that can not be decoded): fail the same way
+			valdec = getValueDecoder(d.t)
+			break
+		}
+		runtime.Gosched() // another goroutine is about to register it
+	}
+	valdec.Decode(dec, p, tag)
 }
 
 // GetValueDecoder of Type t.
